@@ -24,7 +24,7 @@ Proof. exact (stats_ignore_other_columns cols h l a b). Qed.
 
 (* the analysis is a function of the declared statistics only (C12), so equal statistics give equal results *)
 Theorem C02_results_depend_on_statistics_only fam cfg c c' t t' :
-  agree (cfg_cols cfg) c c' -> agree (cfg_cols cfg) t t' ->
+  NoDup (cfg_cols cfg) -> agree (cfg_cols cfg) c c' -> agree (cfg_cols cfg) t t' ->
   rom_analyze_aggregates fam cfg c t = rom_analyze_aggregates fam cfg c' t'.
 Proof. exact (analysis_reads_only_declared fam cfg c c' t t'). Qed.
 
